@@ -399,7 +399,8 @@ def build_cmds(lp, h="h0", how="load"):
         if not file_origin_ok(lp):
             return load_cmd(lp, h)
         _FILE_CTR += 1
-        return load_cmd(lp, h) + via_file_cmds("b%d_%s" % (_FILE_CTR, h), h) + ["dump %s" % h]
+        fmt = "LP" if (lp_origin_ok(lp) and _FILE_CTR % 3 == 0) else "MPS"
+        return load_cmd(lp, h) + via_file_cmds("b%d_%s" % (_FILE_CTR, h), h, fmt) + ["dump %s" % h]
     sense = "max" if lp["max"] else "min"
     lines = ["create %s prob %s" % (h, sense)]
     m, n = lp["m"], lp["n"]
@@ -498,11 +499,17 @@ def file_origin_ok(lp):
             and all(F(v) >= 0 for v in lp["range"]) and len(set(lp["cname"])) == lp["n"] and len(set(lp["rname"])) == lp["m"])
 
 
-def via_file_cmds(tag, h="h0"):
+def lp_origin_ok(lp):
+    """the problem also keeps its shape through an LP-format file: the reader numbers the columns by first appearance (objective first), a
+    ranged row would come back as two rows"""
+    return file_origin_ok(lp) and all(v != 0 for v in lp["obj"]) and "R" not in lp["sense"]
+
+
+def via_file_cmds(tag, h="h0", fmt="MPS"):
     """replace the API-built object by the same problem READ FROM A FILE: objects that come from the readers carry state the builders do
     not create (row-wise copy of the matrix, problem / objective names, raw-data leftovers)"""
-    f = "fo_%s.mps" % tag
-    return ["write_prob %s %s MPS" % (h, f), "free %s" % h, "read_prob %s %s MPS" % (h, f)]
+    f = "fo_%s.%s" % (tag, fmt.lower())
+    return ["write_prob %s %s %s" % (h, f, fmt), "free %s" % h, "read_prob %s %s %s" % (h, f, fmt)]
 
 
 BUILD_MODES = ["load", "create", "rowsfirst", "interleave", "file"]
